@@ -249,6 +249,7 @@ class Engine:
         self.loops = loops          # "fail": a back edge raises NotTabulable; "havoc": generic-iteration abstraction
         self.skip_tracing = True
         self.trace_calls = set()    # opaque callees whose calls are recorded (in order) in the path trace
+        self.unroll_arrays = True   # loops over arrays of known elements are executed element by element (False: generic-iteration abstraction as for any loop)
         self.stop_terms = set()     # blocks of the top-level function whose terminator ends a region() exploration
         self.mod_summaries = {}     # opaque callee -> (index of the &mut argument, pointee ADT, fields it may modify)
         self.opaque = set(opaque)
@@ -718,6 +719,20 @@ class Engine:
             self.states_created += 1
             if self.states_created > self.max_states:
                 raise NotTabulable(f"state explosion in {key}")
+            unroll = False
+            if bi in loops or (bi in seen and self.loops != "havoc"):
+                # a loop driven by a cursor over an array of known elements is executed iteration by iteration (bounded by the array length)
+                fr_ = st.frames[fid]
+                unroll = any(isinstance(v, tuple) and v and v[0] == "arrayiter" and v[2] <= len(v[1]) for v in fr_.locals.values())
+                if unroll and bi in seen:
+                    lb = loops.get(bi) if loops else None
+                    if lb is None:
+                        lb = _cfg.cfg_of(body).loops().get(bi)
+                    unroll = lb is not None and self._cursor_in_loop(fr_, body, lb)
+                    if unroll:
+                        seen = seen - set(lb)
+                elif unroll:
+                    unroll = self._cursor_in_loop(fr_, body, loops[bi])
             if bi in seen:
                 if bi in loops:
                     # back edge: one generic iteration has been summarised; the path ends here
@@ -729,7 +744,7 @@ class Engine:
                 st.stack = entry_stack
                 out.append((st, ("stop", bi)))
                 continue
-            if bi in loops:
+            if bi in loops and not unroll:
                 self.havoc_loop(st, st.frames[fid], body, bi, loops[bi])
             seen = seen | {bi}
             fr = st.frames[fid]
@@ -871,6 +886,17 @@ class Engine:
             if t["k"] == "call":
                 out.append(t["d"])
         return out
+
+    def _cursor_in_loop(self, fr, body, blocks):
+        """some local mutably borrowed inside the loop holds a concrete array cursor (the `next(&mut iter)` of a `for` over a literal array)"""
+        for i in blocks:
+            for s in body["blocks"][i]["s"]:
+                r = s.get("r", {})
+                if s["k"] == "assign" and r.get("k") == "ref" and r.get("bk") == "mut" and not r["p"]["pj"]:
+                    v = fr.locals.get(r["p"]["l"])
+                    if isinstance(v, tuple) and v and v[0] == "arrayiter":
+                        return True
+        return False
 
     def havoc_loop(self, st, fr, body, header, blocks):
         """Generic-iteration abstraction: every place assigned (or mutably borrowed) inside the loop gets an opaque
@@ -1386,6 +1412,27 @@ def m_iter_any(eng, st, args, info):
     return out
 
 
+def m_array_into_iter(eng, st, args, info):
+    """<[T; N] as IntoIterator>::into_iter on an array whose elements are known terms: a concrete cursor (loops over it are unrolled, not abstracted)"""
+    a = args[0] if args else None
+    if eng.unroll_arrays and a is not None and a[0] == "array" and len(a[1]) <= 16:
+        return [(st, ("arrayiter", a[1], 0))]
+    return None
+
+
+def m_array_iter_next(eng, st, args, info):
+    if not args or args[0][0] != "ref":
+        return None
+    v = eng.read_loc(st, args[0][1])
+    if v[0] != "arrayiter":
+        return None
+    elems, i = v[1], v[2]
+    if i >= len(elems):
+        return [(st, OPT_NONE)]
+    eng.write_loc(st, args[0][1], ("arrayiter", elems, i + 1))
+    return [(st, _opt_some(elems[i]))]
+
+
 def m_option_is(which):
     def m(eng, st, args, info):
         o = eng.deref_value(st, args[0])
@@ -1732,6 +1779,8 @@ DEFAULT_MODELS = {
     "core::cell::Cell::replace": m_cell_replace,
     "core::cmp::Ordering::then": m_then,
     "core::iter::traits::iterator::Iterator::any": m_iter_any,
+    "core::array::iter::into_iter": m_array_into_iter,
+    "<core::array::iter::IntoIter<T, N> as core::iter::traits::iterator::Iterator>::next": m_array_iter_next,
     "core::intrinsics::discriminant_value": m_discriminant_value,
     "core::num::count_ones": m_intrinsic1("count_ones", lambda a: I(bin(a[1] & ((1 << MASKS[a[2]]) - 1)).count("1"), "u32")),
     "core::num::swap_bytes": m_intrinsic1("swap_bytes", lambda a: I(int.from_bytes((a[1] & ((1 << MASKS[a[2]]) - 1)).to_bytes(MASKS[a[2]] // 8, "little"), "big"), a[2])),
